@@ -112,6 +112,62 @@ def run(ck):
                   "%s follows a link only when the last component is one (os.path.islink on the joined path): a directory link "
                   "inside the sandbox pointing outside is traversed by the host open()" % q)
 
+    # ------------------------------------------------------------------ R1j: no joined component can be absolute
+    ck.rule("R1j", "no component joined after the base can contain '/': os.path.join drops the base when a component is absolute", floor=2)
+    from sa.astutil import straightline_env, clone
+    for rel, q in SANITISERS:
+        m = ck.repo.mod(rel)
+        fn = m.func(q)
+        for c in [c for c in walk_body(fn) if isinstance(c, ast.Call) and dotted(c.func) == "os.path.join" and c.args and any(isinstance(a, ast.Starred) for a in c.args)]:
+            st = c
+            while not isinstance(st, ast.stmt):
+                st = st._parent
+            body = fn.body
+            env = straightline_env(body[:body.index(st)]) if st in body else {}
+
+            class _T(ast.NodeTransformer):
+                def visit_Name(self, nm):
+                    if isinstance(nm.ctx, ast.Load) and nm.id in env:
+                        return env[nm.id]
+                    return nm
+            for a in c.args:
+                if not isinstance(a, ast.Starred):
+                    continue
+                e = _T().visit(clone(a.value))
+                splits = [x for x in ast.walk(e) if isinstance(x, ast.Call) and isinstance(x.func, ast.Attribute) and x.func.attr == "split" and x.args]
+                ok = False
+                why = "the components `%s` are not produced by a split" % norm(e)[:60]
+                for sp in splits:
+                    sep = sp.args[0]
+                    if isinstance(sep, ast.Constant) and sep.value in ("/", b"/"):
+                        ok = True
+                    else:
+                        # split on another separator: '/' must have been replaced in the string before
+                        inner = sp.func.value
+                        rep = [x for x in ast.walk(inner) if isinstance(x, ast.Call) and isinstance(x.func, ast.Attribute) and x.func.attr == "replace"
+                               and x.args and isinstance(x.args[0], ast.Constant) and x.args[0].value in ("/", b"/")
+                               and len(x.args) > 1 and isinstance(x.args[1], ast.Constant) and "/" not in str(x.args[1].value)]
+                        ok = bool(rep)
+                        why = "the path is split on %s without '/' having been replaced first: a component such as '/etc/hostname' is absolute " \
+                              "and makes os.path.join forget the sandbox base" % norm(sep)
+                ck.ob("R1j", "%s:join-components" % q, ok, m.where(c), "%s: %s" % (q, why))
+    # discarded results of pure string methods (x.replace(...) as a statement changes nothing)
+    PURE = ("replace", "lower", "upper", "strip", "lstrip", "rstrip", "split", "encode", "decode", "format", "join", "translate", "rsplit", "title", "ljust", "rjust")
+    nlint = 0
+    for rel in sorted(set(r for r, _q in SANITISERS)):
+        m = ck.repo.mod(rel)
+        for q, fn in sorted(m.funcs.items()):
+            for n in walk_body(fn):
+                nlint += 1 if isinstance(n, ast.Expr) else 0
+                if isinstance(n, ast.Expr) and isinstance(n.value, ast.Call) and isinstance(n.value.func, ast.Attribute) and n.value.func.attr in PURE \
+                        and isinstance(n.value.func.value, (ast.Name, ast.Attribute, ast.Subscript)):
+                    recv = norm(n.value.func.value)
+                    if recv.split(".")[0] in ("log", "logging", "os", "self", "fd", "sys") and n.value.func.attr in ("format", "join", "split"):
+                        continue
+                    ck.ob("R1j", "%s:discarded-%s" % (q, n.value.func.attr), False, m.where(n),
+                          "the result of `%s` is discarded: strings are immutable, the statement has no effect" % norm(n.value)[:60])
+    ck.note("R1j: %d expression statements scanned for discarded string results" % nlint)
+
     # ------------------------------------------------------------------ R1t
     ck.rule("R1t", "the joined host path is returned only where its islink() test came out false or it was rebound", floor=1)
     for rel, q in SANITISERS:
